@@ -59,22 +59,35 @@ Fid(r) == LET m == Read(r.etoks) IN
 (*    position of that route, else class@route when the class fails at every *)
 (*    position of the route, else class@position; the key's clauses are then *)
 (*    the union over the aggregated cells                                    *)
+(* aux (computed once): F[j] = failed clauses of record j; single = options  *)
+(* failing on their own; kr / cr = the verdict per (dialect, kind, route) /  *)
+(* (dialect, class, route) group of identifier cells.                        *)
 IsMatrix(r) == r.fam \notin {"expr", "ident"}
 Cell(x) == [d |-> x.d, cls |-> x.cls, pos |-> x.pos]
-Ident(r) ==
-  LET kr    == {x \in aux.identall : x.d = r.d /\ Kind(x.cls) = Kind(r.cls) /\ Route(x.pos) = Route(r.pos)}
-      krbad == {y \in aux.identbad : y.d = r.d /\ Kind(y.cls) = Kind(r.cls) /\ Route(y.pos) = Route(r.pos)}
-      cr    == {x \in kr : x.cls = r.cls}
-      crbad == {y \in krbad : y.cls = r.cls} IN
-  IF Cardinality(kr) > 1 /\ kr = {Cell(y) : y \in krbad}
-    THEN [what |-> {Kind(r.cls) \o "@" \o Route(r.pos)}, kcl |-> UNION {y.cl : y \in krbad}]
-  ELSE IF Cardinality(cr) > 1 /\ cr = {Cell(y) : y \in crbad}
-    THEN [what |-> {r.cls \o "@" \o Route(r.pos)}, kcl |-> UNION {y.cl : y \in crbad}]
-  ELSE [what |-> ToSet(r.what), kcl |-> Failed(r)]
-Id(r) ==
-  LET cl == Failed(r)
-      w  == ToSet(r.what) IN
-  IF r.fam = "ident" THEN Ident(r)
+KR(x) == [d |-> x.d, k |-> Kind(x.cls), r |-> Route(x.pos)]
+CR(x) == [d |-> x.d, c |-> x.cls, r |-> Route(x.pos)]
+Group(all, badc, sel(_), g) ==
+  LET a == {x \in all : sel(x) = g}
+      b == {y \in badc : sel(y) = g} IN
+  [full |-> Cardinality(a) > 1 /\ a = {Cell(y) : y \in b}, cl |-> UNION {y.cl : y \in b}]
+
+Aux ==
+  LET F        == [j \in 1..N |-> IF WF(Log[j]) THEN Failed(Log[j]) ELSE {}]
+      BadSet   == {j \in 1..N : F[j] # {}}
+      identall == {Cell(Log[j]) : j \in {k \in 1..N : Log[k].fam = "ident" /\ WF(Log[k])}}
+      identbad == {[d |-> Log[j].d, cls |-> Log[j].cls, pos |-> Log[j].pos, cl |-> F[j]] : j \in {k \in BadSet : Log[k].fam = "ident"}}
+  IN [F      |-> F,
+      single |-> {[fam |-> Log[j].fam, d |-> Log[j].d, f |-> Log[j].what[1], cl |-> F[j]]
+                  : j \in {k \in BadSet : IsMatrix(Log[k]) /\ Len(Log[k].what) = 1}},
+      kr     |-> [g \in {KR(x) : x \in identbad} |-> Group(identall, identbad, KR, g)],
+      cr     |-> [g \in {CR(x) : x \in identbad} |-> Group(identall, identbad, CR, g)]]
+
+Id(r, cl) ==
+  LET w == ToSet(r.what) IN
+  IF r.fam = "ident" THEN
+    IF aux.kr[KR(r)].full THEN [what |-> {Kind(r.cls) \o "@" \o Route(r.pos)}, kcl |-> aux.kr[KR(r)].cl]
+    ELSE IF aux.cr[CR(r)].full THEN [what |-> {r.cls \o "@" \o Route(r.pos)}, kcl |-> aux.cr[CR(r)].cl]
+    ELSE [what |-> w, kcl |-> cl]
   ELSE IF IsMatrix(r) THEN
     LET cu == {f \in w : [fam |-> r.fam, d |-> r.d, f |-> f, cl |-> cl] \in aux.single} IN
     [what |-> IF cu # {} THEN cu ELSE w, kcl |-> cl]
@@ -82,17 +95,13 @@ Id(r) ==
 
 TInit == /\ i = 1 /\ bad = {} /\ xbad = {}
          /\ cnt = [rejected |-> 0, decided_exec |-> 0, decided_denote |-> 0, fid |-> 0]
-         /\ aux = LET BadSet == {j \in 1..N : WF(Log[j]) /\ ~Post(Log[j])} IN
-                  [single   |-> {[fam |-> Log[j].fam, d |-> Log[j].d, f |-> Log[j].what[1], cl |-> Failed(Log[j])]
-                                 : j \in {k \in BadSet : IsMatrix(Log[k]) /\ Len(Log[k].what) = 1}},
-                   identbad |-> {[d |-> Log[j].d, cls |-> Log[j].cls, pos |-> Log[j].pos, cl |-> Failed(Log[j])]
-                                 : j \in {k \in BadSet : Log[k].fam = "ident"}},
-                   identall |-> {[d |-> Log[j].d, cls |-> Log[j].cls, pos |-> Log[j].pos]
-                                 : j \in {k \in 1..N : Log[k].fam = "ident" /\ WF(Log[k])}}]
+         /\ aux = Aux
 TNext == /\ i <= N
-         /\ LET r == Log[i] IN
-              /\ bad' = IF WF(r) /\ ~Post(r)
-                          THEN bad \cup {[idx |-> i, fam |-> r.fam, d |-> r.d, what |-> Id(r).what, clauses |-> Id(r).kcl, own |-> Failed(r)]}
+         /\ LET r  == Log[i]
+                cl == aux.F[i] IN
+              /\ bad' = IF cl # {}
+                          THEN LET id == Id(r, cl) IN
+                               bad \cup {[idx |-> i, fam |-> r.fam, d |-> r.d, what |-> id.what, clauses |-> id.kcl, own |-> cl]}
                           ELSE bad
               /\ xbad' = IF r.fam = "expr" /\ ~Fid(r) THEN xbad \cup {i} ELSE xbad
               /\ cnt' = [rejected |-> cnt.rejected + (IF WF(r) THEN 0 ELSE 1),
